@@ -382,9 +382,14 @@ func init() {
 		CapSpell = (idx / 7) % 6
 		capSpellN = idx
 		AutoMutex = false
+		PastSpell = 0
 		LeftErrStart = false
 		if !m.Race {
 			LeftErrStart = (idx/11)%8 == 3
+			PastSpell = 0
+			if (idx/13)%4 == 2 {
+				PastSpell = 1 + (idx/52)%3
+			}
 			// (C10 and C11 run several goroutines against one structure and bring their own lock monitors)
 			AutoMutex = (idx/5)%4 == 0
 			for k := range lockWatchHeld {
